@@ -3,6 +3,9 @@ package vk
 import (
 	"bytes"
 	"context"
+	"fmt"
+	"syscall"
+	"unsafe"
 	"os"
 	"os/exec"
 	"path/filepath"
@@ -101,5 +104,74 @@ func RunProcTo(timeout time.Duration, dir string, env []string, stdin []byte, st
 			p.Exit = -2
 		}
 	}
+	return p
+}
+
+// RunOnPty runs a command whose standard input, output and error are one fresh pseudo-terminal (its controlling
+// terminal, in the terminal's default line mode), types `typed` on it and returns everything the terminal showed
+// (echo of the typing included) in Stdout.
+func RunOnPty(timeout time.Duration, dir string, env []string, typed []byte, bin string, args ...string) Proc {
+	m, err := os.OpenFile("/dev/ptmx", os.O_RDWR|syscall.O_NOCTTY, 0)
+	if err != nil {
+		Infra("pty: %v", err)
+	}
+	defer m.Close()
+	var n uint32
+	var unlock int32
+	if _, _, e := syscall.Syscall(syscall.SYS_IOCTL, m.Fd(), syscall.TIOCGPTN, uintptr(unsafe.Pointer(&n))); e != 0 {
+		Infra("pty: TIOCGPTN: %v", e)
+	}
+	if _, _, e := syscall.Syscall(syscall.SYS_IOCTL, m.Fd(), syscall.TIOCSPTLCK, uintptr(unsafe.Pointer(&unlock))); e != 0 {
+		Infra("pty: TIOCSPTLCK: %v", e)
+	}
+	s, err := os.OpenFile(fmt.Sprintf("/dev/pts/%d", n), os.O_RDWR|syscall.O_NOCTTY, 0)
+	if err != nil {
+		Infra("pty: %v", err)
+	}
+	cmd := exec.Command(bin, args...)
+	cmd.Dir = dir
+	cmd.Env = append(os.Environ(), env...)
+	cmd.Stdin, cmd.Stdout, cmd.Stderr = s, s, s
+	cmd.SysProcAttr = &syscall.SysProcAttr{Setsid: true, Setctty: true, Ctty: 0}
+	if err := cmd.Start(); err != nil {
+		s.Close()
+		Infra("pty: start %s: %v", bin, err)
+	}
+	s.Close()
+	var out bytes.Buffer
+	rd := make(chan struct{})
+	go func() {
+		buf := make([]byte, 4096)
+		for {
+			k, err := m.Read(buf)
+			out.Write(buf[:k])
+			if err != nil {
+				break
+			}
+		}
+		close(rd)
+	}()
+	m.Write(typed)
+	done := make(chan error, 1)
+	go func() { done <- cmd.Wait() }()
+	var p Proc
+	select {
+	case err := <-done:
+		if ee, ok := err.(*exec.ExitError); ok {
+			p.Exit = ee.ExitCode()
+		} else if err != nil {
+			p.Exit = -1
+		}
+	case <-time.After(timeout):
+		cmd.Process.Kill()
+		<-done
+		p.TimedOut = true
+		p.Exit = -1
+	}
+	select {
+	case <-rd:
+	case <-time.After(2 * time.Second):
+	}
+	p.Stdout = append([]byte{}, out.Bytes()...)
 	return p
 }
